@@ -98,6 +98,34 @@ func checkC18(repo, tier string, verifSeed uint64) int {
 		workers = 16
 	}
 	results := runBatches(b, batches, workers, plan.batchTimeout, true)
+	// A worker that exits 5 found its simulation stuck: some task was descheduled inside code that another task
+	// then blocked on for real (blocking inside an uninstrumented dependency, a wait the instrumenter does not
+	// recognise).  That is the simulator's doing, not the tree's: repeat those batches, and every batch not yet
+	// run, with operation-granular scheduling, under which no task is ever descheduled inside an operation.
+	stuck := 0
+	for _, r := range results {
+		if r != nil && r.ExitCode == 5 && r.Viol == nil {
+			stuck++
+		}
+	}
+	if stuck > 0 {
+		var again []Batch
+		var idx []int
+		for i, r := range results {
+			if r == nil || (r.ExitCode == 5 && r.Viol == nil) {
+				bt := batches[i]
+				bt.ForceOp = true
+				again = append(again, bt)
+				idx = append(idx, i)
+			}
+		}
+		logf("simulation stuck in %d worker batch(es) under statement-granular scheduling (first: %s); repeating %d batch(es) operation-granular",
+			stuck, firstStuck(results), len(again))
+		res2 := runBatches(b, again, workers, plan.batchTimeout, true)
+		for k, i := range idx {
+			results[i] = res2[k]
+		}
+	}
 
 	known := loadKnown()
 	ev := newEvidence(tier, verifSeed, b)
@@ -406,6 +434,15 @@ func canaryKey(m map[string]string) string {
 	return sb.String()
 }
 
+func canaryFirstDifferent(a map[string]string, others ...map[string]string) map[string]string {
+	for _, o := range others {
+		if canaryKey(o) != canaryKey(a) {
+			return o
+		}
+	}
+	return a
+}
+
 func canaryDiffKeys(a, b map[string]string) []string {
 	var out []string
 	for k, v := range a {
@@ -425,40 +462,58 @@ func canaryDiffKeys(a, b map[string]string) []string {
 // checkCanary is oracle O7: every worker process that completed its batch must report the same digests
 // for the fixed canary program.  Returns the path of a replay file if two processes disagree.
 func checkCanary(b *Build, results []*BatchResult, verifSeed uint64, root string, known KnownFindings, logf func(string, ...interface{})) string {
-	groups := map[string][]*BatchResult{}
+	// The reference is what a process WITHOUT any history reports.  Two such processes are run: if they
+	// disagree with each other, results vary from process to process for a reason that is not call history
+	// (a constant chosen at package initialisation, e.g. a hash seed) - C18 does not forbid that, so O7 does
+	// not apply and is skipped.  (A red-team candidate showed this; DESIGN §10.)
+	fresh := func(race bool, tag string) map[string]string {
+		res := runWorker(b, race, batchArgs(Batch{Seed: 1, Runs: 0, Tier: "quick"}), filepath.Join(b.Scratch, "race-canary-"+tag), 5*time.Minute)
+		if res.End == nil {
+			return nil
+		}
+		return res.End.Canary
+	}
+	f1, f2, f3 := fresh(false, "f1"), fresh(false, "f2"), fresh(true, "f3")
+	if f1 == nil || f2 == nil || f3 == nil {
+		logf("O7 skipped: a history-free worker process did not report canary digests")
+		return ""
+	}
+	if canaryKey(f1) != canaryKey(f2) || canaryKey(f1) != canaryKey(f3) {
+		logf("O7 not applicable: canary digests differ between history-free processes (%s): results vary per process for a reason other than call history",
+			strings.Join(canaryDiffKeys(f1, canaryFirstDifferent(f1, f2, f3)), ", "))
+		return ""
+	}
+	refKey := canaryKey(f1)
+	var dev *BatchResult
+	agree, devN := 0, 0
 	for _, r := range results {
 		if r == nil || r.End == nil || len(r.End.Canary) == 0 || r.Viol != nil || r.ExitCode != 0 {
 			continue
 		}
-		k := canaryKey(r.End.Canary)
-		groups[k] = append(groups[k], r)
+		if canaryKey(r.End.Canary) == refKey {
+			agree++
+			continue
+		}
+		devN++
+		if dev == nil || r.Batch.Runs < dev.Batch.Runs {
+			dev = r
+		}
 	}
-	if len(groups) <= 1 {
+	if dev == nil {
 		return ""
 	}
-	// the largest group is taken as the reference, the smallest as the deviant
-	var ref, dev *BatchResult
-	refN, devN := -1, 1<<30
-	for _, g := range groups {
-		if len(g) > refN {
-			refN, ref = len(g), g[0]
-		}
-	}
-	for _, g := range groups {
-		if g[0] != ref && len(g) < devN {
-			devN, dev = len(g), g[0]
-		}
-	}
+	ref := &BatchResult{Batch: Batch{Seed: 1, Runs: 0, Tier: "quick"}, End: &endEv{Canary: f1}}
+	refN := agree
 	keys := canaryDiffKeys(ref.End.Canary, dev.End.Canary)
 	v := Violation{Oracle: "O7", Clause: "c: results differ between worker processes with different call histories", World: "cross-process",
 		Op: "canary", Kind: strings.Join(keys, ","), Verdict: true,
-		Expected: fmt.Sprintf("batch %d (%d processes agree)", ref.Batch.Seed, refN), Actual: fmt.Sprintf("batch %d (%d processes)", dev.Batch.Seed, devN),
+		Expected: fmt.Sprintf("a worker process without history (and %d of the batches)", refN), Actual: fmt.Sprintf("batch %d (one of %d deviating worker processes)", dev.Batch.Seed, devN),
 		Detail: "digests of a fixed program over fixed values, computed at the end of every worker batch; operation/kind pairs that differ: " + strings.Join(keys, ", ")}
 	if kf := known.match(&v); kf != nil {
 		fmt.Printf("KNOWN-FINDING: property=C18 %s\n", kf.What)
 		return ""
 	}
-	logf("O7: canary digests differ between worker processes (%d groups); differing: %s", len(groups), strings.Join(keys, ", "))
+	logf("O7: canary digests of %d worker process(es) differ from those of a process without history; differing: %s", devN, strings.Join(keys, ", "))
 	mk := func(r *BatchResult, runs int) CanaryBatch {
 		return CanaryBatch{Seed: r.Batch.Seed, Runs: runs, Race: r.Batch.Race, Tier: r.Batch.Tier, NoCold: r.Batch.NoCold}
 	}
@@ -483,10 +538,10 @@ func checkCanary(b *Build, results []*BatchResult, verifSeed uint64, root string
 		}
 	}
 	rf := &ReplayFile{Property: "C18", VerifSeed: verifSeed, Build: "both", Violation: []Violation{v}, Minimised: true,
-		CanaryBatches: []CanaryBatch{mk(ref, ref.Batch.Runs), mk(dev, hi)}, CanaryKeys: keys,
-		Note: "O7: run each batch in its own worker process and compare the canary digests computed at the end; the first batch is one of the majority, the second the shortest prefix of a deviating batch that still deviates"}
+		CanaryBatches: []CanaryBatch{mk(ref, 0), mk(dev, hi)}, CanaryKeys: keys,
+		Note: "O7: run each batch in its own worker process and compare the canary digests computed at the end; the first batch has no runs (a process without history), the second is the shortest prefix of a deviating batch that still deviates"}
 	// reproducible?
-	d0, d1 := digestFor(ref, ref.Batch.Runs), digestFor(dev, hi)
+	d0, d1 := digestFor(ref, 0), digestFor(dev, hi)
 	rf.Reproducible = d0 != nil && d1 != nil && canaryKey(d0) != canaryKey(d1)
 	rdir := filepath.Join(root, "replays")
 	if replaysDir != "" {
@@ -496,4 +551,17 @@ func checkCanary(b *Build, results []*BatchResult, verifSeed uint64, root string
 	_ = writeJSON(path, rf)
 	logf("O7 replay file: deviating batch needs %d run(s); reproducible=%v", hi, rf.Reproducible)
 	return path
+}
+
+func firstStuck(results []*BatchResult) string {
+	for _, r := range results {
+		if r != nil && r.ExitCode == 5 {
+			s := r.Stderr
+			if i := strings.Index(s, "goroutine dump follows"); i >= 0 {
+				s = s[:i]
+			}
+			return strings.TrimSpace(tail(s, 200))
+		}
+	}
+	return ""
 }
